@@ -26,6 +26,14 @@ CLAIMS = {
    text="ValidateFinalityCertificates is proved, for any number of certificates, to accept only consecutive instances, well-formed non-bottom chains linked to the previous head (or the caller's base), to check each signature against the table in force, to apply the delta to that table only after the signature check, to compare the CID of exactly the resulting table with the committed one, to advance (instance, base, table) exactly by the validated certificate, and on every error return to report the valid-prefix triple; verifyFinalityCertificateSignature is proved to require signers inside the table with non-zero scaled power and 3*sum(scaled power of signers) >= 2*total, and to verify the aggregate over exactly {instance, round 0, DECIDE, supplemental data, chain} and exactly those signers; ApplyPowerTableDiffsToMap is proved to accept only strictly id-sorted deltas without empty entries and to modify only the given map; ApplyPowerTableDiffs is proved to modify nothing that existed before the call on any path.",
    note="NOT covered: MakePowerTableDiff and the round-trip / uniqueness lemmas over the abstract table view (the accepted-delta shape is proved, the full functional apply specification is not); 'certificates produced by consensus are accepted' (C03 lemma). Aggregate verification, CIDs and payload marshalling are uninterpreted; ECChain.Validate/IsZero/Equal results are used as returned. Instance numbers are assumed not to wrap around 2^64. " + LEVEL_NOTE_COMMON,
    tech="contract-based deductive verification (own VC generator over go/ssa, SMT)"),
+ "C11": dict(cat="proof", ref="DESIGN.md §6 C11",
+   text="Record-granularity contracts on the real WAL methods (at their only instantiation): Append acknowledges only after write+fsync into the active file and leaves the active file's max-epoch statistic >= the entry's epoch (also across a size-triggered rotation); readLogFile returns, for every way the file can end (clean EOF, undecodable tail), the records decoded so far in order together with a statistic covering every one of them; flush moves the active statistic unchanged into the closed-file list; rotate opens only with O_CREATE|O_WRONLY|O_EXCL on a fresh name; hydrate lists every log file with the statistic read from it; Purge removes a closed file only if its statistic is below the epoch, keeps all others in order, leaves every kept statistic >= the epoch and never touches the active file.",
+   note="The file system and the CBOR record decoder are not modelled: 'an acknowledged entry is returned intact by a later read' and the every-byte-offset tearing clause rest on os.File.Write/Sync semantics and on a torn record not decoding (assumed, as DESIGN.md states). All()'s concatenation order is not under contract. The contracts pin down the bookkeeping (statistics, ordering of write/fsync/acknowledge, purge conditions) that the property depends on. " + LEVEL_NOTE_COMMON,
+   tech="contract-based deductive verification (own VC generator over go/ssa, SMT)"),
+ "C12": dict(cat="proof", ref="DESIGN.md §6 C12",
+   text="equivocationFilter.ProcessBroadcast is proved against a full contract with frame (instance only moves forward; true only for the current instance; a published message's slot holds a signature equal to the message's; within an instance no slot is ever removed or overwritten; a new instance starts empty); BroadcastMessage and rebroadcastMessage are proved to publish only what the filter admitted, only the encoding of that message, and (BroadcastMessage) only after the WAL append on every path; newRunner is proved to push every WAL entry through the filter before the participant is created; ProcessReceive is proved to have no caller; the WAL contracts of C11 are obligations of C12 too.",
+   note="The composition 'no two differently signed messages for one slot ever reach the wire across restarts' is the ghost-history argument of DESIGN.md §6 C12 over these contracts and is not itself machine-checked. WAL append errors are outside the property (the code publishes anyway). bytes.Equal is trusted to be an equivalence; slices.Sort/Contains by trusted contracts. " + LEVEL_NOTE_COMMON,
+   tech="contract-based deductive verification (own VC generator over go/ssa, SMT)"),
 }
 NA = {
  "C06": "liveness under partial synchrony with real-time bounds over multi-node schedules: no function contract can state it (DESIGN.md §7)",
